@@ -33,33 +33,13 @@ Theorem C21_quiet : forall vol s a v,
 Proof. exact load_quiet. Qed.
 Print Assumptions C21_quiet.
 
-(* Collections.  Many-to-many: all observations of the (then fully loaded) collection are equal, for every history of
-   observations and of loads of the other side with arbitrary database content. *)
-Theorem C21_collection_m2m : forall evs, all_same (cobs (crun true cinit evs)).
-Proof. exact collection_m2m. Qed.
-Print Assumptions C21_collection_m2m.
-
-(* One-to-many, exact complement of the known finding: unless a member whose owner attribute carries no read bit is
-   re-fetched with another owner while the collection is fully loaded (bad_event), all observations are equal. *)
-Theorem C21_collection_except_known : forall m2m evs,
-  no_bad m2m cinit evs = true -> all_same (cobs (crun m2m cinit evs)).
-Proof. exact collection_except_known. Qed.
-Print Assumptions C21_collection_except_known.
-
-(* One-to-many: after the collection has been iterated / copied once, every later observation returns that same set
-   (or the run fails), whatever is re-fetched afterwards. *)
-Theorem C21_collection_o2m_copy : forall evs1 db evs2,
-  let s := crun false cinit (evs1 ++ [CObsCopy db]) in
-  cfailed s = false ->
-  exists new r, cobs (crun false s evs2) = new ++ items s :: r /\ Forall (fun o => o = items s) new.
-Proof. exact collection_o2m_copy. Qed.
-Print Assumptions C21_collection_o2m_copy.
-
-(* With the proposed repair (proposed_fixes/C21-db-reverse-remove-phantom.diff: the bad event raises) the collection statement
-   holds for every relation kind and every history. *)
-Theorem C21_collection_fixed : forall m2m evs, all_same (cobs (crun_fixed m2m cinit evs)).
+(* Collections (one-to-many and many-to-many).  For every history of observations (len / iteration), re-fetched member
+   rows and loads of the other side, with arbitrary database content: all observations of the collection are equal
+   (a run that fails records nothing more).  `crun` is the code as it is: Set.db_reverse_add rejects a phantom that
+   appears, Set.db_reverse_remove one that disappears (repo commit a9972eb), Set.load the many-to-many phantoms. *)
+Theorem C21_collection : forall m2m evs, all_same (cobs (crun m2m cinit evs)).
 Proof. exact collection_fixed. Qed.
-Print Assumptions C21_collection_fixed.
+Print Assumptions C21_collection.
 
 (* Non-vacuity: a read, an external change of that column arriving with a re-fetch: the run fails; without the read it
    does not and the new value is seen. *)
@@ -68,4 +48,7 @@ Proof. vm_compute. reflexivity. Qed.
 Example C21_nonvacuous_ok : outcome [false] [Load 0 (Some 1); Load 0 (Some 2); Read 0 None; Read 0 None] = (false, [TObs 0 (Some 2); TObs 0 (Some 2)]).
 Proof. vm_compute. reflexivity. Qed.
 Example C21_nonvacuous_coll : coutcome false [CObsCopy [1; 2]%nat; CItemReload 2 true; CObsLen [7]%nat; CItemReload 1 false] = (true, [[1; 2]%nat; [1; 2]%nat]).
+Proof. vm_compute. reflexivity. Qed.
+(* the history of the repaired defect: len() = {1,2}, member 1 moves away and is re-fetched: the run now fails loudly *)
+Example C21_nonvacuous_disappear : coutcome false [CObsLen [1; 2]%nat; CItemReload 1 false; CObsLen [2]%nat] = (true, [[1; 2]%nat]).
 Proof. vm_compute. reflexivity. Qed.
